@@ -256,7 +256,7 @@ for i = 1, 1e308 do end`},
 //	               iteration, unrelated to the call depth.
 func corpus(tier string) []job {
 	n := 24
-	return []job{{
+	js := []job{{
 		// fixed (3317c4c): with a live context a coroutine created inside another coroutine was
 		// cancelled when its creator finished
 		Name: "inner_coroutine_survives_creator", Class: "corpus/outlives_creator", Cap: 400, AllK: true,
@@ -270,12 +270,54 @@ emit(coroutine.resume(outer))
 emit(coroutine.status(outer))
 emit(coroutine.resume(inner, 1))`,
 	}, {
-		Name: "goloop_gsub_index_pcall", Class: "corpus/goloop_catch", Cap: 400, AllK: true, GoLoop: n,
+		// fixed (poll after a Go function entered from Go code): C11-2, a Go library loop over an
+		// error-catching callback went on after cancellation, one attempt per remaining iteration
+		Name: "goloop_gsub_index_pcall", Class: "corpus/goloop_catch", Cap: 400, AllK: true,
 		Src: fmt.Sprintf(`
 local r = setmetatable({}, {__index = pcall, __call = function(t, k) emit(k) return "y" end})
 local s = string.gsub(string.rep("x", %d), ".", r)
 emit(s)`, n),
+	}, {
+		Name: "goloop_sort_pcall_comparator", Class: "corpus/goloop_catch", Cap: 400, AllK: true,
+		Src: `
+local function f(x) emit("cmp") return false end
+local t = {} for i = 1, 12 do t[i] = f end
+emit(pcall(table.sort, t, pcall))
+emit(pcall(table.sort, t, function(a, b) return select(2, coroutine.resume(coroutine.create(a), b)) end))`,
+	}, {
+		// fixed: a script whose last action is a tail-called Go function that swallowed the
+		// cancellation ended with a nil error (hunt obs-1)
+		Name: "tail_pcall_swallows", Class: "corpus/tail_catcher", Cap: 300, AllK: true,
+		Src: `return pcall(function() local i = 0 while true do i = i + 1 emit(i) end end)`,
+	}, {
+		Name: "tail_xpcall_swallows", Class: "corpus/tail_catcher", Cap: 300, AllK: true,
+		Src: `return xpcall(function() local i = 0 while true do i = i + 1 emit(i) end end, function(e) emit("h") return e end)`,
+	}, {
+		Name: "tail_resume_swallows", Class: "corpus/tail_catcher", Cap: 300, AllK: true,
+		Src: `
+local co = coroutine.create(function() local i = 0 while true do i = i + 1 emit(i) end end)
+local function last() return coroutine.resume(co) end
+return last()`,
+	}, {
+		Name: "tail_catchers_nested", Class: "corpus/tail_catcher", Cap: 300, AllK: true,
+		Src: `
+local function loop() local i = 0 while true do i = i + 1 emit(i) end end
+local w = coroutine.wrap(function() return pcall(loop) end)
+local function a() return xpcall(w, debug.traceback) end
+return pcall(a)`,
+	}, {
+		// fixed: the reader loop of load never dispatched an instruction (hunt obs-5)
+		Name: "load_go_reader", Class: "corpus/goloop_reader", Cap: 200, AllK: true, NoRef: true,
+		Src: `return load(os.time)`,
+	}, {
+		Name: "load_go_reader_in_pcall_retry", Class: "corpus/goloop_reader", Cap: 200, AllK: true, NoRef: true,
+		Src: `while true do pcall(load, os.clock) end`,
 	}}
+	// the host runs the catching builtin itself: CallByParam(P{Fn: pcall}, chunk)
+	for _, name := range []string{"tight_loop", "pcall_retry", "coroutine_wrap_generator"} {
+		js = append(js, job{Name: name + "/hostpcall", Class: "corpus/host_calls_pcall", Src: srcOf(name), Cap: 120, AllK: true, Mode: "hostpcall"})
+	}
+	return js
 }
 
 func constructs(tier string) []job {
